@@ -472,7 +472,13 @@ class Functor(pg_object.Object, utils.Functor):
             arg_value, root_path=self.sym_path + arg_name)
       keyword_args[arg_name] = arg_value
 
+    positional_arg_names = set(
+        arg_spec.name for arg_spec in signature.args[:len(args)])
     for arg_name, arg_value in kwargs.items():
+      if arg_name in positional_arg_names:
+        raise TypeError(
+            f'{signature.id}() got multiple values for argument {arg_name!r}.'
+        )
       if arg_name in self._specified_args:
         if not override_args:
           raise TypeError(
